@@ -30,6 +30,7 @@ mod c07;
 mod c16x;
 mod streamraw;
 mod lexmath;
+mod stypes;
 
 fn main() {
     let args: Vec<String> = std::env::args().collect();
@@ -89,6 +90,11 @@ fn main() {
         }
         _ => { eprintln!("unknown property {}", prop); std::process::exit(2); }
     }
+    // streams of typed item types (docs/STREAMTYPED-NOTES.md): one line per property
+    if prop == "C12" { stypes::run_c12(&mut sink, thorough, seed); }
+    if prop == "C09" { stypes::run_c09(&mut sink, thorough, seed); }
+    if prop == "C13" { stypes::run_c13(&mut sink, thorough, seed); }
+    if prop == "C10" { stypes::run_c10(&mut sink, thorough, seed); }
     sink.finish(stats);
 }
 
@@ -122,6 +128,7 @@ fn replay(sink: &mut common::Sink, toks: &[&str]) {
         "f64rt" | "f32rt" | "f64pr" | "f32pr" | "f32all" => c07::replay(sink, toks),
         "rawser" | "rawnest" | "stream3" | "sdepth" | "spfx" | "raw3" => streamraw::replay(sink, toks),
         "lm" => lexmath::replay(sink, toks),
+        "tstream" | "tstream3" | "tsfault" | "tspfx" => stypes::replay(sink, toks),
         _ => eprintln!("cannot replay op {}", toks[0]),
     }
 }
